@@ -263,6 +263,8 @@ func (o Op) String() string {
 		return o.Kind + "(early)"
 	case "snap", "ssnap":
 		return fmt.Sprintf("%s#%d%v", o.Kind, o.ID, o.Path)
+	case "sprev":
+		return fmt.Sprintf("sprev#%d(of #%d)", o.ID, o.Snap)
 	case "readsnap", "closesnap", "closeiter", "iternext", "itercur":
 		return fmt.Sprintf("%s#%d", o.Kind, o.ID)
 	case "iter":
